@@ -112,6 +112,8 @@ pub struct C12;
 pub fn decode_sitefree_case(tape: &[u8]) -> Value {
     let mut t = Tape::new(tape);
     let mode = t.weighted(&[2, 2, 1]);
+    let refkind = t.weighted(&[6, 1, 1, 1]);
+    let odd = t.weighted(&[6, 1, 1, 1, 1]);
     let mut cfg = gen_cfg(&mut t, &CfgOpts { fixed_prefix: true, rich: mode == 2 });
     if mode == 0 {
         // nothing that the generated program uses is enabled: operators off, only never-used method names configured
@@ -139,7 +141,7 @@ pub fn decode_sitefree_case(tape: &[u8]) -> Value {
     let p = gen_program_t(&mut t, &o);
     let mut src = p.src.clone();
     // odd bytes that must come back untouched
-    match t.weighted(&[6, 1, 1, 1, 1]) {
+    match odd {
         1 => src = format!("\u{feff}{src}"),
         2 => src = src.replace('\n', "\r\n"),
         3 => src.push_str("var odd = 'lone \\ud800 surrogate \\0 nul';\n"),
@@ -147,7 +149,24 @@ pub fn decode_sitefree_case(tape: &[u8]) -> Value {
         _ => {}
     }
     let tags: Vec<&str> = p.tags.iter().copied().collect();
-    json!({"src": src, "cfg": cfg.json, "file": "/app/src/gen.js", "tags": tags, "mode": mode})
+    // sometimes a source-map reference (usable or not) with chaining on: the trailer must be there all the same
+    let mut cfgj = cfg.json.clone();
+    match refkind {
+        1 => {
+            src.push_str("//# sourceMappingURL=not-shipped.js.map\n");
+            cfgj["chainSourceMap"] = json!(true);
+        }
+        2 => {
+            src.push_str("//# sourceMappingURL=data:application/json;base64,@@@\n");
+            cfgj["chainSourceMap"] = json!(true);
+        }
+        3 => {
+            src.push_str("//# sourceMappingURL=data:application/json;base64,eyJ2ZXJzaW9uIjozLCJzb3VyY2VzIjpbImEudHMiXSwibmFtZXMiOltdLCJtYXBwaW5ncyI6IkFBQUEifQ==\n");
+            cfgj["chainSourceMap"] = json!(true);
+        }
+        _ => {}
+    }
+    json!({"src": src, "cfg": cfgj, "file": "/app/src/gen.js", "tags": tags, "mode": mode})
 }
 
 impl Check for C12 {
@@ -204,13 +223,18 @@ impl Check for C12 {
             }
             let odd = src.starts_with('\u{feff}') || src.contains('\r') || src.contains("var odd =") || src.contains("var long =");
             if std::env::var("VERIF_NO_NODE").is_err() && (odd || crate::engine::hash_str(&src) % 8 == 0) {
-                let req = json!({"cmd": "package", "op": "echo", "code": src, "file": file, "native": v, "config": cfg.json});
+                // a second text of the same length for the same file name (also not modified): `//A` vs `//B` appended
+                let req = json!({"cmd": "package", "op": "echo", "code": src, "file": file, "native": v, "config": cfg.json,
+                                 "codeA": format!("{src}\n//A"), "codeB": format!("{src}\n//B")});
                 match node::call(ctx, &req) {
                     Ok(r) => {
                         if let Some(e) = r.get("error") {
                             return Outcome::inconclusive(format!("package worker: {}", e.as_str().unwrap_or("").chars().take(80).collect::<String>()));
                         }
                         for k in ["cache", "nocache"] {
+                            if r[k]["sameSeq"] == json!(false) {
+                                return Outcome::fail("package-echo-sequence", format!("{k} rewriter: after rewrite(A, file) the call rewrite(B, file) (same length, other text) did not hand back B: {}", r[k]));
+                            }
                             if r[k]["same"] != json!(true) {
                                 return Outcome::fail("package-echo", format!("{k} rewriter did not hand back the caller's source byte for byte: {}", r[k]));
                             }
@@ -304,6 +328,15 @@ fn outcome_key(o: &rw::Outcome, prefix_hint: Option<&str>) -> Value {
     }
 }
 
+/// external source maps served to every C16 call (two packages whose files carry the same relative reference)
+fn c16_reader() -> MemReader {
+    let mut r = MemReader::default();
+    let map = |src: &str| format!(r#"{{"version":3,"sources":["{src}","../src/shared.ts"],"names":["nm"],"mappings":"AAAAA,IAAI,CCAA;ADAA,KCCA"}}"#).into_bytes();
+    r.files.insert("/app/pkg-a/dist/index.js.map".into(), ReadOutcome::Bytes(map("../src/a.ts")));
+    r.files.insert("/app/pkg-b/dist/index.js.map".into(), ReadOutcome::Bytes(map("../src/b.ts")));
+    r
+}
+
 fn history_inputs(t: &mut Tape, cfg: &crate::cfggen::CfgInfo) -> Vec<(String, String)> {
     // a small pool of (src, file) of every outcome class
     let mut pool = vec![];
@@ -321,6 +354,12 @@ fn history_inputs(t: &mut Tape, cfg: &crate::cfggen::CfgInfo) -> Vec<(String, St
     let _ = cfg;
     pool.push(("function f(a, b) { return a + b; }\n//# sourceMappingURL=missing.js.map\n".to_string(), "/app/src/mapped.js".to_string()));
     pool.push(("function f(a, b) { return a.trim() + b; }\n//# sourceMappingURL=data:application/json;base64,e30=\n".to_string(), "/app/src/inline.js".to_string()));
+    // a bundle with several original sources (inline), and two packages with the same relative external reference
+    let bundle = "function f(a, b) {\n  const x = a + b;\n  const y = `${a}${b}`;\n  return x.trim() + y;\n}\n";
+    let m = r#"{"version":3,"sources":["one.ts","two.ts","three.ts","four.ts"],"names":["p","q"],"mappings":"AAAAA,SAAS;ACAT,QAAQC;ACAR,QAAQ;ACAR,OAAO;AAAA"}"#;
+    pool.push((format!("{bundle}//# sourceMappingURL=data:application/json;base64,{}\n", smap::encode_base64(m.as_bytes())), "/app/src/bundle.js".to_string()));
+    pool.push(("function f(a, b) { return a + b; }\n//# sourceMappingURL=index.js.map\n".to_string(), "/app/pkg-a/dist/index.js".to_string()));
+    pool.push(("function f(a, b) { return a + b; }\n//# sourceMappingURL=index.js.map\n".to_string(), "/app/pkg-b/dist/index.js".to_string()));
     pool
 }
 
@@ -338,9 +377,16 @@ impl Check for C16 {
         let ncalls = 2 + t.below(12);
         let picks: Vec<(usize, u16)> = (0..ncalls).map(|_| (t.below(ncfg), t.u16())).collect();
         let mut cfgs = vec![];
-        for _ in 0..ncfg {
+        for i in 0..ncfg {
             let fixed = t.chance(170);
-            cfgs.push(gen_cfg(&mut t, &CfgOpts { fixed_prefix: fixed, rich: true }));
+            let mut c = gen_cfg(&mut t, &CfgOpts { fixed_prefix: fixed, rich: true });
+            if i == 0 || t.flag() {
+                // chaining matters for history dependence through source maps
+                let mut j = c.json.clone();
+                j["chainSourceMap"] = json!(true);
+                c = info_from_json(&j);
+            }
+            cfgs.push(c);
         }
         let pool = history_inputs(&mut t, &cfgs[0]);
         let mut calls = vec![];
@@ -394,7 +440,7 @@ fn eval_history(case: &Value) -> Outcome {
             let r = c["rw"].as_u64().unwrap_or(0) as usize % rewriters.len().max(1);
             let src = c["src"].as_str().unwrap_or("");
             let file = c["file"].as_str().unwrap_or("");
-            let reader = MemReader::default();
+            let reader = c16_reader();
             let got = rw::rewrite(&rewriters[r], src, file, &reader);
             if let rw::Outcome::Panic(_) = got {
                 return Outcome::skip("rewriter panicked (C13)");
@@ -422,7 +468,7 @@ fn eval_history(case: &Value) -> Outcome {
                     .stack_size(256 << 20)
                     .spawn(move || {
                         let fresh = rw::make_config(&cj);
-                        rw::rewrite(&fresh, &s2, &f2, &MemReader::default())
+                        rw::rewrite(&fresh, &s2, &f2, &c16_reader())
                     })
                     .expect("spawn")
                     .join()
@@ -485,7 +531,7 @@ pub fn oneshot_main() -> i32 {
         .stack_size(256 << 20)
         .spawn(move || {
             let c = rw::make_config(&v["cfg"]);
-            let o = rw::rewrite(&c, v["src"].as_str().unwrap_or(""), v["file"].as_str().unwrap_or(""), &MemReader::default());
+            let o = rw::rewrite(&c, v["src"].as_str().unwrap_or(""), v["file"].as_str().unwrap_or(""), &c16_reader());
             let p = if info.prefix.is_some() { None } else { prefix_of(&o) };
             outcome_key(&o, p.as_deref())
         })
@@ -609,7 +655,20 @@ fn map_variants(t: &mut Tape) -> (String, Vec<(String, ReadOutcome)>, bool) {
             (format!("\n//# sourceMappingURL={url}"), vec![], t.chance(40))
         }
         0 => (String::new(), vec![], false),
-        1 => (format!("\n//# sourceMappingURL=data:application/json;base64,{}", b64(good_map)), vec![], false),
+        1 => {
+            let m = if t.flag() {
+                good_map.to_string()
+            } else {
+                // repeated sources, sourcesContent, names, sourceRoot, 1-field segments
+                [
+                    r#"{"version":3,"sourceRoot":"root/","sources":["a.ts","b.ts","a.ts"],"sourcesContent":["//a","//b","//a again"],"names":["n","m"],"mappings":"AAAAA,C,CCAAC,EAAC;ACAD,CDCA;;ACCA"}"#,
+                    r#"{"version":3,"file":"out.js","sources":["a.ts","a.ts"],"sourcesContent":["let a = b + c","let a = b + c"],"names":[],"mappings":"AAAA,EAAE,MAAM,CAAC,GAAG,CAAC,GAAG,CAAC"}"#,
+                    r#"{"version":3,"sources":[null,"x.ts",null],"sourcesContent":[null,"//x",null],"names":[],"mappings":"AAAA,CCAA,CCAA"}"#,
+                ][t.below(3)]
+                    .to_string()
+            };
+            (format!("\n//# sourceMappingURL=data:application/json;base64,{}", b64(&m)), vec![], false)
+        }
         2 => ("\n//# sourceMappingURL=ext.js.map".into(), vec![("ext.js.map".into(), ReadOutcome::Bytes(good_map.into()))], false),
         3 => ("\n//# sourceMappingURL=ext.js.map".into(), vec![], false),
         4 => ("\n//# sourceMappingURL=ext.js.map".into(), vec![("ext.js.map".into(), ReadOutcome::Fail(*t.pick(&kinds)))], false),
@@ -793,14 +852,32 @@ pub fn eval_totality(case: &Value) -> Outcome {
     if src.len() > 1 << 20 {
         return Outcome::skip("input too large");
     }
-    let reader = reader_from_case(case);
-    let config = rw::make_config(&cfg.json);
-    let start = std::time::Instant::now();
-    let out = rw::rewrite(&config, &src, &file, &reader);
-    let took = start.elapsed().as_secs_f64();
-    if took > 20.0 {
-        return Outcome::inconclusive("call slower than 20 s");
+    // the call runs on a thread of its own with a watchdog: a call that does not return (loop, self-deadlock)
+    // must not hang the check. A watchdog hit is reported as inconclusive (exit 2), never as a violation.
+    let (tx, rx) = std::sync::mpsc::channel();
+    let case2 = case.clone();
+    let (src2, file2, cfg_json) = (src.clone(), file.clone(), cfg.json.clone());
+    let spawned = std::thread::Builder::new().stack_size(256 << 20).spawn(move || {
+        let reader = reader_from_case(&case2);
+        let config = rw::make_config(&cfg_json);
+        let out = rw::rewrite(&config, &src2, &file2, &reader);
+        let _ = tx.send(out);
+    });
+    if spawned.is_err() {
+        return Outcome::inconclusive("cannot spawn a thread");
     }
+    let limit = std::env::var("VERIF_CALL_TIMEOUT_SECS").ok().and_then(|s| s.parse().ok()).unwrap_or(20u64);
+    let out = match rx.recv_timeout(std::time::Duration::from_secs(limit)) {
+        Ok(o) => o,
+        Err(_) => {
+            let dir = std::env::var("VERIF_FOUND_DIR").unwrap_or_else(|_| format!("{}/replays/found", crate::engine::verif_root()));
+            let _ = std::fs::create_dir_all(&dir);
+            let path = format!("{dir}/C13-watchdog-{:016x}.json", crate::engine::hash_value(case));
+            let _ = std::fs::write(&path, serde_json::to_string_pretty(&json!({"property": "C13", "signature": "watchdog", "case": case})).unwrap());
+            println!("WATCHDOG: a rewrite call did not return within {limit} s; input saved to {path}");
+            return Outcome::inconclusive("watchdog: call did not return");
+        }
+    };
     let class = match &out {
         rw::Outcome::Ok(v) => format!("ok:{}", v["metrics"]["status"].as_str().unwrap_or("?")),
         rw::Outcome::Err(e) => {
@@ -948,13 +1025,37 @@ impl Check for C07Static {
             return Outcome::pass(false, classes);
         }
         let Some(Ok(_)) = &a.out else { return Outcome::skip("output unparsable (C08)") };
+        // independent of the round trip: the directive prologues of the program and of every function-like body,
+        // in pre-order, must be the same lists in input and output (injected prologue / `let` skipped)
+        {
+            let inp = crate::erase::normalize(&a.src.as_ref().unwrap().tree);
+            let outp = crate::erase::normalize(&a.out.as_ref().unwrap().as_ref().unwrap().tree);
+            let prefix = a.prefix.clone().unwrap_or_default();
+            let mut li = vec![];
+            let mut lo = vec![];
+            collect_prologues(&inp, &prefix, &mut li);
+            collect_prologues(&outp, &prefix, &mut lo);
+            // blocks without directives are ignored (the output has extra ones: concise arrow bodies become blocks)
+            li.retain(|l| !l.is_empty());
+            lo.retain(|l| !l.is_empty());
+            // hoisting reorders sub-expressions (and the function-likes inside them): compare as multisets
+            li.sort();
+            lo.sort();
+            if li != lo {
+                let k = li.iter().zip(lo.iter()).position(|(x, y)| x != y).unwrap_or(li.len().min(lo.len()));
+                return Outcome::fail(
+                    "directive-prologue-changed",
+                    format!("directive prologue #{k} (pre-order over program and function bodies) is {:?} in the input but {:?} in the output", li.get(k), lo.get(k)),
+                );
+            }
+        }
         let er = match a.erased.as_ref().unwrap() {
             Ok(er) => er,
             Err(e) => return Outcome::skip(format!("round trip failed: {} ({})", e.sig, owner_of(&e.sig))),
         };
         let mut nontrivial = false;
-        // file prologue
-        let body = er.output_norm["body"].as_array().cloned().unwrap_or_default();
+        // file prologue: right after the directive prologue OF THE INPUT
+        let body = er.input["body"].as_array().cloned().unwrap_or_default();
         let file_directives = body.iter().take_while(|s| is_directive_or_module_directive(s)).count();
         match er.prologue_index {
             Some(i) => {
@@ -981,6 +1082,43 @@ impl Check for C07Static {
             }
         }
         Outcome::pass(nontrivial, classes)
+    }
+}
+
+/// directive prologues (lists of directive strings) of the program and of every block that is a function-like body
+/// or any other block, in pre-order; injected prologue statements and injected `let`s are skipped
+fn collect_prologues(v: &Value, prefix: &str, out: &mut Vec<Vec<String>>) {
+    match v {
+        Value::Object(m) => {
+            let t = ty(v);
+            let list = if t == "Script" || t == "Module" { m.get("body") } else if t == "BlockStatement" { m.get("stmts") } else { None };
+            if let Some(stmts) = list.and_then(|l| l.as_array()) {
+                let mut dirs = vec![];
+                for s in stmts {
+                    if Eraser::is_directive(s) {
+                        dirs.push(s["expression"]["value"].as_str().unwrap_or("").to_string());
+                    } else {
+                        break;
+                    }
+                }
+                out.push(dirs);
+            }
+            for (k, x) in m {
+                if !k.starts_with('$') {
+                    collect_prologues(x, prefix, out);
+                }
+            }
+        }
+        Value::Array(a) => {
+            for x in a {
+                // the injected file prologue contains blocks of its own: skip it
+                if ty(x) == "IfStatement" && x["test"]["left"]["argument"]["value"] == json!("_ddiast") {
+                    continue;
+                }
+                collect_prologues(x, prefix, out);
+            }
+        }
+        _ => {}
     }
 }
 
